@@ -213,7 +213,9 @@ CHECKS = {
         text="Theorems: reading a data attribute through a link chain of any length reads the final target's dictionary "
              "(AttributeError iff absent; refused-name tuples extracted from /repo); writing writes it; write-then-read "
              "through every object with the same final target; the invariant (links hold no data attributes) is "
-             "preserved. Structural independence holds by the types of the model and is checked on the implementation by "
+             "preserved; C20_class_attributes_conservative: the extended model for classes that define attributes "
+             "themselves (class attribute of a link subclass, read-only property of a target class, Model/SymlinkX.v) is "
+             "the core model when no class does. Structural independence holds by the types of the model and is checked on the implementation by "
              "the harness. Defect D13 (constructor kwargs of a link to a link) repaired by fix: acc44ab. Tie: random "
              "interleavings of object creation (links to links), writes, reads, moves and children assignments.",
         design="6/C20", note="attribute lookup order is CPython's; 'every other attribute' = data attributes.",
